@@ -162,17 +162,24 @@ def run(ctx) -> None:
         'concurrent writers are C01/C02; here other sessions only observe',
     ]
     ctx.check_proofs(['RefModel/Check'])
+    from .. import c12_configs as G
     nd = ctx.scale(260, 1800)
     nm = ctx.scale(60, 400)
+
+    def on_program(k, init, sts):
+        monitor(ctx, k, init, sts)
+        G.file_monitor(ctx, k, init, sts, C10._replay_obj)      # maildir: the files themselves
     for kind, n in (('dict', nd), ('maildir', nm)):
         C10.run_programs(ctx, f'ro_programs_{kind}', [(kind, n, 13)], R.C12_WEIGHTS,
                          first=_first(kind), final=final_rw_select,
                          observer=lambda i: i % 2 == 1,
-                         on_program=lambda k, init, sts: monitor(ctx, k, init, sts))
+                         on_program=on_program)
         # the same with another connection writing in between (labels LExt of the model)
         C10.run_programs(ctx, f'ro_interference_{kind}', [(kind, max(n // 3, 10), 13)], R.C12_WEIGHTS,
                          first=_first(kind), final=final_rw_select, interfere=0.35,
-                         on_program=lambda k, init, sts: monitor(ctx, k, init, sts))
+                         on_program=on_program)
+    # every maildir configuration (layout x --colon), housekeeping-heavy alphabet, files compared
+    G.run(ctx)
 
 
 def replay(ctx, obj) -> int:
